@@ -360,7 +360,7 @@ pub fn c03(n: usize, start: usize, len: usize, deep: bool) -> Vec<Case> {
                     out.push(base(n, start, len, vec![Op::Drain(canonical(a, b), vec![Step::NextBack, t, Step::Next], End::Drop)]));
                 }
             }
-            for t in [Step::Count, Step::Last, Step::Fold, Step::RevCollect, Step::RFold, Step::RevLast] {
+            for t in [Step::Count, Step::Last, Step::Fold, Step::RevCollect, Step::RFold, Step::RevLast, Step::Via(0), Step::Via(1), Step::Via(2), Step::Via(3), Step::Via(4), Step::Via(5), Step::Via(6), Step::Via(7)] {
                 out.push(base(n, start, len, vec![Op::Drain(canonical(a, b), vec![t], End::Drop)]));
             }
         }
@@ -486,7 +486,7 @@ pub fn c05_base(n: usize, start: usize, len: usize) -> Vec<Case> {
     // consumption through adaptors that destroy elements inside the iterator machinery
     // (count, last, nth, skip, step_by drop what they pass over)
     for pre in [vec![], vec![Step::Next], vec![Step::NextBack]] {
-        for t in [Step::Count, Step::Last, Step::Nth(1), Step::Nth(2), Step::NthBack(1), Step::NthBack(2), Step::Skip(1), Step::Skip(2), Step::StepBy(1), Step::RevLast, Step::Fold, Step::RFold, Step::FindMid, Step::RFindMid] {
+        for t in [Step::Count, Step::Last, Step::Nth(1), Step::Nth(2), Step::NthBack(1), Step::NthBack(2), Step::Skip(1), Step::Skip(2), Step::StepBy(1), Step::RevLast, Step::Fold, Step::RFold, Step::FindMid, Step::RFindMid, Step::Via(0), Step::Via(6)] {
             let mut s = pre.clone();
             s.push(t);
             ops.push(Op::IntoIter(s.clone()));
@@ -539,10 +539,20 @@ pub fn c06_base(n: usize, start: usize, len: usize) -> Vec<(Case, Vec<FaultKind>
                            vec![Step::NextBack, Step::RFold], vec![Step::Next, Step::Fold]] {
                 ops.push((Op::Drain(canonical(a, b), script, End::Drop), vec![FaultKind::Make]));
             }
+            for f in 0..8u8 {
+                ops.push((Op::Drain(canonical(a, b), vec![Step::Via(f)], End::Drop), vec![FaultKind::Make]));
+                if b - a >= 2 {
+                    ops.push((Op::Drain(canonical(a, b), vec![if f % 2 == 0 { Step::NextBack } else { Step::Next }, Step::Via(f)], End::Drop), vec![FaultKind::Make]));
+                }
+            }
         }
     }
     for script in [vec![Step::Fold], vec![Step::RFold], vec![Step::Next, Step::RFold], vec![Step::NextBack, Step::Fold], vec![Step::FindMid], vec![Step::RFindMid]] {
         ops.push((Op::IntoIter(script), vec![FaultKind::Make]));
+    }
+    for f in 0..8u8 {
+        ops.push((Op::IntoIter(vec![Step::Via(f)]), vec![FaultKind::Make]));
+        ops.push((Op::IntoIter(vec![if f % 2 == 0 { Step::NextBack } else { Step::Next }, Step::Via(f)]), vec![FaultKind::Make]));
     }
     // cloning the owning iterator (fresh, and after steps from either end) with a panicking Clone
     for script in [vec![Step::Fork], vec![Step::Next, Step::Fork], vec![Step::NextBack, Step::Fork], vec![Step::Next, Step::NextBack, Step::Fork, Step::Next]] {
@@ -648,7 +658,7 @@ pub fn c08(n: usize, start: usize, len: usize) -> Vec<Case> {
             }
         }
         for pre in [vec![], vec![Step::Next], vec![Step::NextBack], vec![Step::Next, Step::NextBack, Step::Next]] {
-            for t in [Step::Count, Step::Last, Step::Fold, Step::RevCollect, Step::Dbg, Step::RFold, Step::RevLast, Step::Search, Step::FindMid, Step::RFindMid] {
+            for t in [Step::Count, Step::Last, Step::Fold, Step::RevCollect, Step::Dbg, Step::RFold, Step::RevLast, Step::Search, Step::FindMid, Step::RFindMid, Step::Via(0), Step::Via(1), Step::Via(2), Step::Via(3), Step::Via(4), Step::Via(5), Step::Via(6), Step::Via(7)] {
                 let mut s = pre.clone();
                 s.push(t);
                 s.push(Step::Next);
@@ -672,7 +682,7 @@ pub fn c08(n: usize, start: usize, len: usize) -> Vec<Case> {
         out.push(base(n, start, len, vec![Op::IntoIter(vec![t, Step::Next, Step::NextBack])]));
         out.push(base(n, start, len, vec![Op::IntoIter(vec![Step::NextBack, t, Step::Next])]));
     }
-    for t in [Step::Count, Step::Last, Step::Fold, Step::RevCollect, Step::Dbg, Step::RFold, Step::RevLast] {
+    for t in [Step::Count, Step::Last, Step::Fold, Step::RevCollect, Step::Dbg, Step::RFold, Step::RevLast, Step::Via(0), Step::Via(1), Step::Via(2), Step::Via(3), Step::Via(4), Step::Via(5), Step::Via(6), Step::Via(7)] {
         out.push(base(n, start, len, vec![Op::IntoIter(vec![Step::Next, t])]));
         out.push(base(n, start, len, vec![Op::IntoIter(vec![Step::NextBack, t])]));
     }
@@ -752,7 +762,7 @@ pub fn c09(n: usize, start: usize, len: usize, end: End) -> Vec<Case> {
                         s.push(Step::NextBack);
                         out.push(base(n, start, len, vec![Op::Drain(canonical(a, b), s, End::Drop)]));
                     }
-                    for t in [Step::Count, Step::Last, Step::Fold, Step::RevCollect, Step::RFold, Step::RevLast] {
+                    for t in [Step::Count, Step::Last, Step::Fold, Step::RevCollect, Step::RFold, Step::RevLast, Step::Via(0), Step::Via(1), Step::Via(2), Step::Via(3), Step::Via(4), Step::Via(5), Step::Via(6), Step::Via(7)] {
                         let mut s = pre.clone();
                         s.push(t);
                         out.push(base(n, start, len, vec![Op::Drain(canonical(a, b), s, End::Drop)]));
